@@ -509,7 +509,10 @@ func registerEnvStubs(e *Engine) {
 		}
 		return dec.docs == 0
 	}
-	in["(*encoding/json.Decoder).UseNumber"] = func(fr *frame, a []value) value { return nil }
+	in["(*encoding/json.Decoder).UseNumber"] = func(fr *frame, a []value) value {
+		(*a[0].(*value)).(nativeObj).v.(*jsonDecoder).useNumber = true
+		return nil
+	}
 	in["(*encoding/json.Decoder).Decode"] = func(fr *frame, a []value) value {
 		ps := fr.i.ps
 		ps.env().logs = append(ps.env().logs, "json.Decode")
@@ -520,8 +523,44 @@ func registerEnvStubs(e *Engine) {
 		if r, ok := dec.reader.(iface); ok {
 			if p, ok := r.v.(*value); ok && p != nil {
 				if st, ok := (*p).(structure); ok && len(st) >= 2 {
-					bufCell = p
-					content = bufferContent(fr.i.ps, st)
+					if _, isBuf := st[0].([]value); isBuf || st[0] == nil {
+						bufCell = p
+						content = bufferContent(fr.i.ps, st)
+					}
+				}
+			}
+		}
+		if r, ok := dec.reader.(iface); ok && bufCell == nil {
+			// a *strings.Reader{s, i, prevRune}
+			if p, ok := r.v.(*value); ok && p != nil {
+				if st, ok := (*p).(structure); ok && len(st) == 3 {
+					if str, ok := st[0].(string); ok {
+						off := int(asInt64(st[1]))
+						if off <= len(str) {
+							content = str[off:]
+						}
+					}
+				}
+			}
+		}
+		// concrete text holding a JSON value is decoded by the real decoder: no environment choice
+		if text, ok := content.(string); ok && !dec.decided && !strings.HasPrefix(text, "<<") {
+			nd := json.NewDecoder(strings.NewReader(text))
+			if dec.useNumber {
+				nd.UseNumber()
+			}
+			var n any
+			if err := nd.Decode(&n); err == nil {
+				if dst, ok := a[1].(iface); ok && dst.t != nil {
+					if pt, isPtr := dst.t.Underlying().(*types.Pointer); isPtr {
+						c := &jsonCodec{ps: ps, eng: fr.i.eng, tokens: map[string]value{}}
+						*(dst.v.(*value)) = c.fromNativeJSON(n, pt.Elem())
+						if bufCell != nil {
+							drainBuffer(bufCell)
+						}
+						dec.docs++
+						return iface{}
+					}
 				}
 			}
 		}
@@ -1069,6 +1108,7 @@ func normSite(s string) string {
 }
 
 type jsonDecoder struct {
+	useNumber bool
 	reader  value
 	decided bool
 	bad     bool
